@@ -1,128 +1,243 @@
 /-
 C04 — No received frame can stop or derail the receive path.
-Property theorems only. Model: `FlexModel/Geo/RecvPath.lean`; the `except` clauses of the receive loops and
-the exception class hierarchy are regenerated from `/repo` into `Generated/Except.lean` on every run.
+Property theorems only.  Models: `FlexModel/Geo/RecvPath.lean` (byte-level prologue, receive loops with handler
+faults), `FlexModel/Geo/RecvStation.lean` (prologue + C03 security gate + C06 router handlers + facility chain).
+Lemmas: `FlexModel/Geo/RecvLemmas.lean`.  The shape of the guarding `try` statements and the table of exception
+classes are regenerated from the source into `Generated/Except.lean` on every run (`harness/gen_except.py`).
 -/
-import FlexModel.Geo.RecvPath
+import FlexModel.Geo.RecvLemmas
 import Generated.Except
 
 namespace Props.C04
-open FlexModel.Geo.Recv Generated.Except
+open FlexModel.Geo FlexModel.Geo.Recv Generated.Except
 
-/-! ## Every exception kind the receive path can raise is caught by each receive loop
-(checked against the *generated* except-clauses and MRO: narrowing a clause re-opens these). -/
+/-! ## 1. Everything the receive path can raise derives from `Exception` and is caught
+(checked against the GENERATED try-statement shapes and exception table: narrowing a clause, moving the `try` out of
+the `while`, a `break`/`return`/`raise`/`print` in a handler, or a new exception class outside `Exception` re-opens
+these). -/
 
-theorem raw_loop_catches_all (e : Exc) : caught mro rawLoopCatches e = true := by
-  cases e <;> decide
+/-- every class named by a `raise` statement in the modules the receive path reaches (flexstack import closure,
+asn1tools, ecdsa, ...), every built-in class the interpreter raises implicitly, and every class ever observed by the
+fuzzing runs derives from `Exception` -/
+theorem raise_table_all_exceptions : ∀ c ∈ raiseTable, "Exception" ∈ c.2 := by
+  decide +kernel
 
-theorem cv2x_loop_catches_all (e : Exc) : caught mro cv2xLoopCatches e = true := by
-  cases e <;> decide
+/-- no flexstack module on the receive path raises `SystemExit` / `KeyboardInterrupt` / `GeneratorExit` or calls
+`sys.exit`, `os._exit`, `os.abort`, `_thread.interrupt_main`, `signal.raise_signal` -/
+theorem no_base_exception_sites : flexBaseOnlySites = [] := by decide
 
-theorem gn_indicate_catches_all (e : Exc) : caught mro gnIndicateCatches e = true := by
-  cases e <;> decide
+theorem listed_caught (catches : List String) (h : catches.contains "Exception" = true) (i : Nat) :
+    caught mro catches (.listed i) = true := by
+  have key : ∀ c : String × List String, c.2.contains "Exception" = true → c.2.any (fun x => catches.contains x) = true := by
+    intro c hc
+    rw [List.any_eq_true]
+    exact ⟨"Exception", by simpa using hc, h⟩
+  have hall : raiseTable.all (fun c => c.2.contains "Exception") = true := by decide +kernel
+  have hd : defaultClass.2.contains "Exception" = true := by decide
+  exact key _ (getD_of_all (fun c => c.2.contains "Exception") defaultClass hd raiseTable hall i)
 
-/-! ## The loop never dies, for every frame processor, state and frame -/
+theorem raw_loop_catches_all (e : Exc) : caught mro rawLoop.catches e = true := by
+  cases e with
+  | listed i => exact listed_caught _ (by decide) i
+  | _ => decide
 
-theorem loopStep_never_dead {σ α φ : Type} (catches : List String)
-    (hc : ∀ e, caught mro catches e = true)
-    (recv : σ → φ → σ × List α × Option Exc) (st : σ) (f : φ) :
-    ∀ e, loopStep mro catches recv st f ≠ .dead e := by
-  intro e
-  unfold loopStep
-  rcases h : recv st f with ⟨st', acts, oe⟩
-  cases oe with
-  | none => simp
-  | some e' => simp [hc e']
+theorem cv2x_loop_catches_all (e : Exc) : caught mro cv2xLoop.catches e = true := by
+  cases e with
+  | listed i => exact listed_caught _ (by decide) i
+  | _ => decide
 
-/-- for every stream of frames (any length, any content) the loop is still alive at the end -/
-theorem loopRun_alive {σ α φ : Type} (catches : List String)
-    (hc : ∀ e, caught mro catches e = true)
-    (recv : σ → φ → σ × List α × Option Exc) (fs : List φ) (st : σ) :
-    (loopRun mro catches recv st fs).isSome = true := by
-  induction fs generalizing st with
-  | nil => simp [loopRun]
-  | cons f fs ih =>
-    unfold loopRun
-    cases hstep : loopStep mro catches recv st f with
-    | dead e => exact absurd hstep (loopStep_never_dead catches hc recv st f e)
-    | «continue» st' acts =>
-      simp only
-      have := ih st'
-      cases hrun : loopRun mro catches recv st' fs with
-      | none => simp [hrun] at this
-      | some r => simp
+theorem gn_indicate_catches_all (e : Exc) : caught mro gnIndicate.catches e = true := by
+  cases e with
+  | listed i => exact listed_caught _ (by decide) i
+  | _ => decide
 
-theorem raw_loop_never_dies {σ α φ : Type} (recv : σ → φ → σ × List α × Option Exc) (fs : List φ) (st : σ) :
-    (loopRun mro rawLoopCatches recv st fs).isSome = true :=
-  loopRun_alive rawLoopCatches raw_loop_catches_all recv fs st
+/-- the `try` that guards the frame processor is INSIDE the `while` loop, and the catching handlers consist of
+allow-listed statements that cannot raise, break or return (logging calls) - for both loops -/
+theorem loops_guarded_inside_while :
+    rawLoop.inWhile = true ∧ rawLoop.handler = .safe ∧ cv2xLoop.inWhile = true ∧ cv2xLoop.handler = .safe ∧
+    gnIndicate.handler = .safe ∧ rawRecvGuardOnly = true := by decide
 
-theorem cv2x_loop_never_dies {σ α φ : Type} (recv : σ → φ → σ × List α × Option Exc) (fs : List φ) (st : σ) :
-    (loopRun mro cv2xLoopCatches recv st fs).isSome = true :=
-  loopRun_alive cv2xLoopCatches cv2x_loop_catches_all recv fs st
+theorem raw_loop_survives (e : Exc) (b : Bool) : survives mro rawLoop e b = true :=
+  survives_of_safe mro rawLoop (by decide) (by decide) raw_loop_catches_all e b
 
-/-! ## A frame rejected by the stateless prologue has no effect: later frames are processed as if it had
-never been received -/
+theorem cv2x_loop_survives (e : Exc) (b : Bool) : survives mro cv2xLoop e b = true :=
+  survives_of_safe mro cv2xLoop (by decide) (by decide) cv2x_loop_catches_all e b
 
-/-- frames that the prologue rejects (exception or silent drop) -/
-def rejected (cfg : Cfg) (f : List Nat) : Prop :=
-  (∃ e, classify cfg f = .raised e) ∨ classify cfg f = .dropped
+/-! ## 2. The loops never die: for every frame processor, state, frame stream and stdout-fault sequence -/
 
-theorem rejected_no_effect {σ α : Type} (cfg : Cfg)
-    (handle : σ → Handler → List Nat → σ × List α × Option Exc)
-    (verify : σ → List Nat → σ × List α × Option Exc) (st : σ) (f : List Nat)
-    (h : rejected cfg f) :
-    (recvGN cfg handle verify st f).1 = st ∧ (recvGN cfg handle verify st f).2.1 = [] := by
-  unfold recvGN
-  rcases h with ⟨e, he⟩ | hd
-  · simp [he]
-  · simp [hd]
+theorem raw_loop_never_dies {σ α φ : Type} (broken : φ → Bool) (recv : σ → φ → σ × List α × Option Exc)
+    (fs : List φ) (st : σ) : (loopRun mro rawLoop broken recv st fs).isSome = true :=
+  loopRun_alive mro rawLoop broken raw_loop_survives recv fs st
 
-/-- as if never received: a rejected frame at any position of any stream changes neither the final state
-nor the actions (deliveries, transmissions) of the run -/
-theorem as_if_never_received {σ α : Type} (cfg : Cfg) (catches : List String)
-    (hc : ∀ e, caught mro catches e = true)
-    (handle : σ → Handler → List Nat → σ × List α × Option Exc)
-    (verify : σ → List Nat → σ × List α × Option Exc)
-    (pre suf : List (List Nat)) (bad : List Nat) (hbad : rejected cfg bad) (st : σ) :
-    loopRun mro catches (recvGN cfg handle verify) st (pre ++ bad :: suf)
-      = loopRun mro catches (recvGN cfg handle verify) st (pre ++ suf) := by
-  induction pre generalizing st with
-  | nil =>
-    simp only [List.nil_append]
-    have hne := rejected_no_effect cfg handle verify st bad hbad
-    conv => lhs; unfold loopRun
-    unfold loopStep
-    rcases hr : recvGN cfg handle verify st bad with ⟨st', acts, oe⟩
-    rw [hr] at hne
-    simp only at hne
-    obtain ⟨h1, h2⟩ := hne
-    subst h1; subst h2
-    cases oe with
-    | none =>
-      simp only
-      cases loopRun mro catches (recvGN cfg handle verify) st' suf with
-      | none => rfl
-      | some r => simp
-    | some e =>
-      simp only [hc e, if_true]
-      cases loopRun mro catches (recvGN cfg handle verify) st' suf with
-      | none => rfl
-      | some r => simp
-  | cons p pre ih =>
-    simp only [List.cons_append]
-    unfold loopRun
-    cases loopStep mro catches (recvGN cfg handle verify) st p with
-    | dead e => rfl
-    | «continue» st' acts => simp only [ih st']
+theorem cv2x_loop_never_dies {σ α φ : Type} (broken : φ → Bool) (recv : σ → φ → σ × List α × Option Exc)
+    (fs : List φ) (st : σ) : (loopRun mro cv2xLoop broken recv st fs).isSome = true :=
+  loopRun_alive mro cv2xLoop broken cv2x_loop_survives recv fs st
 
-/-! ## Totality / shape of the prologue -/
+/-- `Router.gn_data_indicate` raises nothing into the link layer: whatever `process_basic_header` raises, with
+stdout broken or not -/
+theorem gn_indicate_never_raises {σ α φ : Type} (broken : φ → Bool) (proc : σ → φ → σ × List α × Option Exc)
+    (st : σ) (f : φ) : (indicate mro gnIndicate broken proc st f).2.2 = none :=
+  indicate_never_raises mro gnIndicate broken (by decide) gn_indicate_catches_all proc st f
+
+/-- the station's complete receive path behind the raw loop: alive after every stream, under every fault sequence -/
+theorem station_loop_never_dies (D : Dec) (c : SCfg) (fs : List Rx) (st : St) :
+    (loopRun mro rawLoop Rx.stdoutBroken (stationIndicate mro gnIndicate D c) st fs).isSome = true :=
+  raw_loop_never_dies _ _ fs st
+
+/-- WITNESS (code before fixes/C04-report-cannot-stop-loop): a handler that reports with `print` dies with the first
+bad frame received while stdout is broken; without the fault it survives -/
+theorem printing_handler_witness :
+    let sh : LoopShape := { catches := ["Exception"], inWhile := true, handler := .printing }
+    let recv : Unit → Bool → Unit × List Nat × Option Exc := fun st _ => (st, [], some .decodeError)
+    (loopRun mro sh id recv () [false, true, false]).isSome = false ∧
+    (loopRun mro sh id recv () [false, false, false]).isSome = true := by decide
+
+/-- WITNESS (gen_except used to accept this shape): a `try` AROUND the `while` catches the exception and leaves the loop -/
+theorem try_around_loop_witness :
+    let sh : LoopShape := { catches := ["Exception"], inWhile := false, handler := .safe }
+    let recv : Unit → Bool → Unit × List Nat × Option Exc := fun st _ => (st, [], some .decodeError)
+    (loopRun mro sh id recv () [false]).isSome = false := by decide
+
+/-! ## 3. As if never received
+
+`no_effect_as_if_never_received` (RecvLemmas) holds for ANY frame processor: a frame that changes no state and causes
+no action, at any position of any stream, leaves the run (final state, all actions) exactly as without it.  Frames
+without effect in the station model: -/
+
+/-- (a) frames the byte-level prologue rejects: short / truncated headers, reserved or unknown NH / HT / HST /
+station type, wrong version, RHL above MHL, zero-sized areas, unsecured frames under enabled security, secured frames
+without verify service -/
+theorem rejected_no_effect (D : Dec) (c : SCfg) (x : Rx) (h : rejected c.recv x.bytes) :
+    NoEffect (stationRecv D c) x := prologue_rejected_no_effect D c x h
+
+/-- (b) secured envelopes that do not parse or name an algorithm the decoder does not know -/
+theorem unparsable_envelope_no_effect (D : Dec) (c : SCfg) (x : Rx)
+    (hc : classify c.recv x.bytes = .secured) (hm : D.msg x.bytes = none) :
+    NoEffect (stationRecv D c) x := (Recv.unparsable_envelope_no_effect D c x hc hm).1
+
+/-- as if never received, station model, raw loop, every fault sequence: a frame of class (a) or (b) at any position
+of any stream changes neither the final state (location table, duplicate lists, CBF buffer, certificate library, P2PCD
+lists) nor any action (delivery, transmission, timer) of the run -/
+theorem as_if_never_received (D : Dec) (c : SCfg) (pre suf : List Rx) (bad : Rx)
+    (hbad : rejected c.recv bad.bytes ∨ (classify c.recv bad.bytes = .secured ∧ D.msg bad.bytes = none)) (st : St) :
+    loopRun mro rawLoop Rx.stdoutBroken (stationRecv D c) st (pre ++ bad :: suf)
+      = loopRun mro rawLoop Rx.stdoutBroken (stationRecv D c) st (pre ++ suf) := by
+  apply no_effect_as_if_never_received mro rawLoop Rx.stdoutBroken raw_loop_survives
+  rcases hbad with h | ⟨h1, h2⟩
+  · exact rejected_no_effect D c bad h
+  · exact unparsable_envelope_no_effect D c bad h1 h2
+
+/-- the same behind the C-V2X callback loop -/
+theorem as_if_never_received_cv2x (D : Dec) (c : SCfg) (pre suf : List Rx) (bad : Rx)
+    (hbad : rejected c.recv bad.bytes ∨ (classify c.recv bad.bytes = .secured ∧ D.msg bad.bytes = none)) (st : St) :
+    loopRun mro cv2xLoop Rx.stdoutBroken (stationRecv D c) st (pre ++ bad :: suf)
+      = loopRun mro cv2xLoop Rx.stdoutBroken (stationRecv D c) st (pre ++ suf) := by
+  apply no_effect_as_if_never_received mro cv2xLoop Rx.stdoutBroken cv2x_loop_survives
+  rcases hbad with h | ⟨h1, h2⟩
+  · exact rejected_no_effect D c bad h
+  · exact unparsable_envelope_no_effect D c bad h1 h2
+
+/-! ## 4. Frames that fail AFTER the prologue: what exactly they may change -/
+
+/-- (c) a secured frame that fails verification (forged, flipped, unknown signer, unsupported signer type, verify
+service raising): router state untouched, no action at all; the security state moves to C03's `gate` result, whose
+certificate library only grows by chain-verified certificates -/
+theorem failed_verification_effect (D : Dec) (c : SCfg) (st : St) (x : Rx)
+    (hc : classify c.recv x.bytes = .secured)
+    (hf : ∀ pl, (FlexModel.Sec.gate c.sec c.recv.securityEnabled true st.sec (.secured (D.msg x.bytes))).2 ≠ .pass pl) :
+    (stationRecv D c st x).1.r = st.r ∧ (stationRecv D c st x).2.1 = [] ∧
+    FlexModel.Sec.Store.Grows st.sec.store (stationRecv D c st x).1.sec.store :=
+  ⟨(Recv.failed_verification_effect D c st x hc hf).1, (Recv.failed_verification_effect D c st x hc hf).2.1,
+   failed_verification_store_grows D c st x hc⟩
+
+/-- ... and later honest secured frames are verified, decapsulated and handled exactly as without the failed ones -/
+theorem honest_secured_frame_unaffected (D : Dec) (c : SCfg) (st st2 : St) (ys : List Rx)
+    (hrun : FailedRun D c st ys st2) (x : Rx) (hcx : classify c.recv x.bytes = .secured)
+    (m : FlexModel.Sec.Msg) (hmx : D.msg x.bytes = some m) (cert : FlexModel.Sec.Cert)
+    (hr : FlexModel.Sec.Ready c.sec st.sec.store cert)
+    (hm : FlexModel.Sec.HonestMsg m cert) (hsg : m.signer = .certs [cert])
+    (hnc : ∀ y ∈ ys, ∀ m', D.msg y.bytes = some m' → m'.noClash cert) :
+    (stationRecv D c st2 x).1.r = (stationRecv D c st x).1.r ∧
+    (stationRecv D c st2 x).2 = (stationRecv D c st x).2 :=
+  honest_secured_frame_after_failed_frames D c st st2 ys hrun x hcx m hmx cert hr hm hsg hnc
+
+/-- (d) an unsecured frame that RAISES, code as it is (`_partial`: C04-KF1).  Either it had no effect at all, or it was
+a well-formed GN packet, accepted and delivered by the router, whose payload the BTP / facility chain could not
+decode: then the router state is exactly what C06's `recvR` computes for that well-formed packet (source LocTE with
+PV, sequence number in the duplicate list, neighbour flag, CBF buffer; forwarding done) -/
+theorem raising_frame_effect_partial (D : Dec) (c : SCfg) (st : St) (x : Rx) (e : Exc)
+    (hc : classify c.recv x.bytes ≠ .secured) (he : (stationRecv D c st x).2.2 = some e) :
+    ((stationRecv D c st x).1 = st ∧ (stationRecv D c st x).2.1 = []) ∨
+    ((∃ h, classify c.recv x.bytes = .handled h) ∧ D.upper (D.pkt x.bytes) = some e ∧
+      deliveries (recvR c.r st.r (D.pkt x.bytes) x.env x.now).2 ≠ [] ∧
+      (stationRecv D c st x).1.r = (recvR c.r st.r (D.pkt x.bytes) x.env x.now).1 ∧
+      (stationRecv D c st x).2.1 = (recvR c.r st.r (D.pkt x.bytes) x.env x.now).2) :=
+  Recv.raising_frame_effect_partial D c st x e hc he
+
+/-- full statement, variant that validates the payload before the GN layer commits (hypothetical repair of C04-KF1):
+a frame that raises has no effect whatsoever -/
+theorem raising_frame_no_effect (D : Dec) (c : SCfg) (hpf : c.payloadFirst = true) (st : St) (x : Rx) (e : Exc)
+    (hc : classify c.recv x.bytes ≠ .secured) (he : (stationRecv D c st x).2.2 = some e) :
+    (stationRecv D c st x).1 = st ∧ (stationRecv D c st x).2.1 = [] :=
+  Recv.raising_frame_no_effect D c hpf st x e hc he
+
+/-- every frame of every OTHER source that arrives after a frame `xb` which left router state behind (any frame, any
+outcome) gets the same deliveries and raises the same exceptions as if `xb` had never been received - for every later
+stream, code as it is.  (`Stable`: an entry alive when the later frame arrives was alive when `xb` arrived - the purge
+`xb` triggered removed nothing a later reception would have kept.)  Not covered, named exactly: later frames of the
+SAME source (C04-KF1: `xb`'s sequence number sits in that source's duplicate list), forwarding decisions that look
+at the neighbour set, which `xb`'s source has legitimately joined, and later LS replies that complete an own Location
+Service (`LsReplyToSelf`: they deliver nothing; their bookkeeping is C06's). -/
+theorem later_frames_of_other_sources_unaffected (D : Dec) (c : SCfg) (hv : c.r.loct.v = {})
+    (hns : c.recv.hasVerifyService = false) (st : St) (hu : Uniq st.r.t) (xb : Rx) (suf : List Rx)
+    (hsrc : ∀ x ∈ suf, (D.pkt x.bytes).so ≠ (D.pkt xb.bytes).so)
+    (hnl : ∀ x ∈ suf, ¬ LsReplyToSelf c.r (D.pkt x.bytes))
+    (hst : ∀ x ∈ suf, Stable c.r.loct st.r.t xb.now x.now) :
+    obsRun D c (stationRecv D c st xb).1 suf = obsRun D c st suf :=
+  obsRun_rel D c hv hns (D.pkt xb.bytes).so st.r.t xb.now suf hsrc hnl hst st (stationRecv D c st xb).1
+    (stationRecv_srel_init D c hv hns st hu xb)
+
+/-- `Uniq` (unique keys of the location table), the standing assumption above, is an invariant of the receive path and
+holds of the empty table -/
+theorem uniq_invariant (D : Dec) (c : SCfg) (st : St) (x : Rx) (hu : Uniq st.r.t) :
+    Uniq (stationRecv D c st x).1.r.t := stationRecv_uniq D c st x hu
+
+/-! ### C04-KF1 witness: a delivered frame whose payload the facility cannot decode consumes its sequence number -/
+
+def wCfg (pf : Bool) : SCfg :=
+  { r := { loct := { self := 1, lifetimeMs := 20000, dplLen := 8 } }, payloadFirst := pf }
+
+/-- GBC frame (circle, a = 5) with one payload octet -/
+def wFrame (payload : Nat) : Rx :=
+  { bytes := [0x11, 0, 5, 1] ++ [0x20, 0x40, 0, 0x80, 0, 0, 1, 0] ++ List.replicate 36 0 ++ [0, 5] ++ List.replicate 6 0
+      ++ [payload],
+    now := 1000, env := { inside := true } }
+
+def wDec : Dec :=
+  { pkt := fun f => { kind := .gbc, rhl := 1, mhl := 1, so := 7, sn := 5, soPV := { time := 1000 }, body := byteAt f 56 },
+    msg := fun _ => none, secExc := fun _ => .listed 0, plain := fun _ => [],
+    upper := fun p => if p.body = 0 then some .valueError else none }
+
+/-- code as it is: the bad frame (payload 0) is delivered, the facility raises, and the well-formed frame with the same
+(source, sequence number) that follows is dropped as a duplicate; alone it is delivered -/
+theorem payload_failure_consumes_sn_witness :
+    obsRun wDec (wCfg false) {} [wFrame 0, wFrame 1] = [([.deliver .gbc 7 5], some .valueError), ([], none)] ∧
+    obsRun wDec (wCfg false) {} [wFrame 1] = [([.deliver .gbc 7 5], none)] := by
+  decide +kernel
+
+/-- repaired variant: the later frame is delivered as if the bad one had never been received -/
+theorem payload_first_variant_witness :
+    obsRun wDec (wCfg true) {} [wFrame 0, wFrame 1] = [([], some .valueError), ([.deliver .gbc 7 5], none)] := by
+  decide +kernel
+
+/-! ## 5. Shape of the prologue -/
 
 /-- frames shorter than the basic header are always rejected -/
-theorem short_frame_rejected (cfg : Cfg) (f : List Nat) (h : f.length < 4) : rejected cfg f := by
+theorem short_frame_rejected (cfg : Recv.Cfg) (f : List Nat) (h : f.length < 4) : rejected cfg f := by
   left; exact ⟨.decodeError, by simp [classify, h]⟩
 
 /-- unsecured frames are dropped when security is enabled (whatever follows the basic header) -/
-theorem unsecured_dropped_when_enabled (cfg : Cfg) (f : List Nat) (hlen : 4 ≤ f.length)
+theorem unsecured_dropped_when_enabled (cfg : Recv.Cfg) (f : List Nat) (hlen : 4 ≤ f.length)
     (hs : cfg.securityEnabled = true) (hnh : byteAt f 0 % 16 = 1) (hv : byteAt f 0 / 16 = cfg.version) :
     classify cfg f = .dropped := by
   have : ¬ f.length < 4 := by omega
@@ -132,29 +247,30 @@ theorem unsecured_dropped_when_enabled (cfg : Cfg) (f : List Nat) (hlen : 4 ≤ 
   simp only [hnh, h1, hv, hs]
   simp
 
-/-- a remaining hop limit above the maximum hop limit is never handled -/
-theorem rhl_above_mhl_rejected (rhl : Nat) (p : List Nat) (h : byteAt p 6 < rhl) :
-    ∀ hd, commonStage rhl p ≠ .handled hd := by
+/-- a zero-sized area (distance a = 0; or b = 0 for rectangle / ellipse) is rejected before any state is touched -/
+theorem zero_area_rejected (h : Handler) (hst : Nat) (p : List Nat) (hlen : 44 ≤ p.length)
+    (hz : u16 p 36 = 0 ∨ (hst ≠ 0 ∧ u16 p 38 = 0)) :
+    ∀ hd, geoPrologue h hst p ≠ .handled hd := by
   intro hd
-  unfold commonStage
-  by_cases h0 : p.length < 8
-  · rw [if_pos h0]; exact fun x => Outcome.noConfusion x
-  · rw [if_neg h0]
+  have hl : ¬ p.length < 44 := by omega
+  unfold geoPrologue
+  rw [if_neg hl]
+  by_cases h1 : (!stOk (byteAt p 4)) = true
+  · rw [if_pos h1]; exact fun x => Outcome.noConfusion x
+  · rw [if_neg h1]
     simp only
-    by_cases h1 : (!Generated.Enums.CommonNH_values.contains (byteAt p 0 / 16)) = true
-    · rw [if_pos h1]; exact fun x => Outcome.noConfusion x
-    · rw [if_neg h1]
-      by_cases h2 : (!Generated.Enums.HeaderType_values.contains (byteAt p 1 / 16)) = true
-      · rw [if_pos h2]; exact fun x => Outcome.noConfusion x
-      · rw [if_neg h2]
-        by_cases h3 : (!hstOk (byteAt p 1 / 16) (byteAt p 1 % 16)) = true
-        · rw [if_pos h3]; exact fun x => Outcome.noConfusion x
-        · rw [if_neg h3, if_pos h]; exact fun x => Outcome.noConfusion x
+    by_cases h2 : u16 p 36 = 0
+    · rw [if_pos h2]; exact fun x => Outcome.noConfusion x
+    · rw [if_neg h2]
+      rcases hz with hz | hz
+      · exact absurd hz h2
+      · rw [if_pos hz]; exact fun x => Outcome.noConfusion x
 
-/-! ## MAC filter -/
+/-! ## 6. MAC filter (repaired code: fixes/C04-own-source-ignored) -/
 
-theorem own_frames_ignored (own dst : List Nat) (h : dst ≠ own) : macAccept own dst own = false := by
-  simp [macAccept, h]
+/-- frames sent by the station itself are ignored, whatever their destination (own unicast included) -/
+theorem own_frames_ignored (own dst : List Nat) : macAccept own dst own = false := by
+  simp [macAccept]
 
 theorem foreign_unicast_ignored (own dst src : List Nat) (h1 : dst ≠ own)
     (h2 : dst ≠ [255, 255, 255, 255, 255, 255]) : macAccept own dst src = false := by
@@ -164,9 +280,38 @@ theorem broadcast_from_other_accepted (own src : List Nat) (h : src ≠ own) :
     macAccept own [255, 255, 255, 255, 255, 255] src = true := by
   simp [macAccept, h]
 
+theorem own_unicast_from_other_accepted (own src : List Nat) (h : src ≠ own) : macAccept own own src = true := by
+  simp [macAccept, h]
+
+/-- WITNESS (code before the repair): a frame from the own MAC address to the own MAC address was passed up -/
+theorem own_unicast_echo_witness : macAcceptOld [2, 0, 0, 0, 0, 99] [2, 0, 0, 0, 0, 99] [2, 0, 0, 0, 0, 99] = true := by
+  decide
+
+/-- outside that case the old and the repaired filter agree -/
+theorem mac_filter_old_agrees (own dst src : List Nat) (h : ¬ (src = own ∧ dst = own)) :
+    macAcceptOld own dst src = macAccept own dst src := by
+  unfold macAcceptOld macAccept
+  by_cases hs : src = own <;> by_cases hd : dst = own <;> simp_all
+
 /-! ## Non-vacuity -/
 example : classify {} [0x11, 0, 5, 1] = .raised .decodeError := by decide
 example : rejected {} [0x13, 0, 5, 1, 0, 0, 0, 0] := by left; exact ⟨.valueError, by decide⟩
 example : classify {} ([0x11, 0, 5, 1] ++ [0x20, 0x50, 0, 0x80, 0, 0, 1, 0] ++ List.replicate 28 0) = .handled .shb := by decide
+example : classify { hasVerifyService := true } [0x12, 0, 5, 1, 9, 9] = .secured := by decide
+example : classify (wCfg false).recv (wFrame 0).bytes = .handled .gbc := by decide
+/-- a zero-area GBC (a = 0) is rejected by the prologue: C04-m1's frame -/
+example : classify {} ([0x11, 0, 5, 1] ++ [0x20, 0x40, 0, 0x80, 0, 0, 1, 0] ++ List.replicate 44 0) = .raised .zeroDivisionError := by
+  decide
+/-- `Stable` is satisfiable with a non-empty table: an entry alive at the later time was alive at the earlier one -/
+example : Stable { self := 1, lifetimeMs := 20000, dplLen := 8 } [(7, { pv := { time := 1000 }, hasPV := true })] 1000 1500 := by
+  intro a e h _
+  simp only [lookup] at h
+  split at h
+  · cases h; decide
+  · cases h
+/-- `FailedRun` is inhabited by a non-empty run: an unparsable envelope -/
+example : FailedRun wDec { wCfg false with recv := { hasVerifyService := true } } {} [{ bytes := [0x12, 0, 5, 1, 9] }] {} := by
+  refine .cons _ _ _ _ (by decide) (by intro pl; simp [FlexModel.Sec.gate, wDec]) ?_
+  exact .nil _
 
 end Props.C04
